@@ -487,6 +487,18 @@ func c17Run(c *Ctx) {
 			c17Judge(c, &Case{Gen: "min-max-long-lists", Src: src, X: map[string]string{"fn": "minmax", "nargs": fmt.Sprint(n)}})
 		}
 	}
+	// 3e2. a variable declared without a value holds nil, also when it follows an initialised one in a list; a call followed by a comment that ends the text
+	for _, src := range []string{
+		Lines(K["var"]+" root = "+BI("sqrt", "16")+", res;", Print(`"before"`), Print(BI("abs", "res")), Print(`"AFTER"`)), Lines(K["var"]+" base = 2, ex;", Print(BI("pow", "base", "ex"))), Lines(K["var"]+" best = 9, other, third;", Print(BI("max", "best", "9")), Print(BI("min", "other", "1"))),
+		Print(BI("sqrt", "16")) + " // four", Print(BI("max", "1", "2")) + "\n" + Print(BI("pow", "2", "10")) + " //", BI("sqrt", `"x"`) + "; // bad", Print(BI("abs", "-1")) + " /* c */ // d",
+	} {
+		if c.Mine() {
+			c17Judge(c, &Case{Gen: "builtin-arity-kinds", Src: src, X: map[string]string{"fn": "decl-or-ending", "nargs": "1"}})
+		}
+		if c.Mine() {
+			c17Judge(c, &Case{Gen: "builtin-arity-kinds-cli", Mode: "cli", Src: src, X: map[string]string{"fn": "decl-or-ending", "nargs": "1"}})
+		}
+	}
 	// 3f. interactive mode: after a line that misuses a built-in, later lines still compute
 	for _, bad := range []string{Print(BI("sqrt", `"x"`)), BI("abs") + ";", BI("pow", "1", "nil") + ";", Print(BI("max", "[]")), BI("len", "5") + ";"} {
 		lines := []string{Print(BI("sqrt", "16")), bad, Print(BI("sqrt", "16")), BI("abs", "-3") + ";", bad, BI("max", "1", "2") + ";", Print(BI("round", "2.5") + " + " + BI("pow", "2", "3"))}
